@@ -10,7 +10,7 @@ META = {
              "(mutual exclusion and no blocked waiter), grants in arrival order with nobody skipped unless cancelled while waiting, "
              "stale/foreign unlock is an error that changes nothing, head removal hands over to exactly the next caller, no ready channel "
              "closed twice, gateway TTL always positive; waiter_variant / granted_when_ahead_gone (liveness as a safety bound: a removal ahead of a waiter moves it exactly one place forward, nothing ever overtakes it, and once the n callers ahead have left it is the granted head; each holder leaves at the latest when its TTL watchdog fires — timers are trusted), waiter_id_is_a_capability (what the code would do with a waiter's id, and why the property does not quantify over it); closed counterexamples refutes_wakeLast / refutes_wakeNone / refutes_doubleClose / "
-             "refutes_ttlFloor for mutated shapes; classify_sound ties the decision to 14 facts (incl. the id source: uuid vs per-queue counter; foreign_unlock_noop is proved over the multi-key map model for globally unique ids, refutes_ticketIds otherwise) extracted from lock.go and gateway.go; the "
+             "refutes_ttlFloor for mutated shapes; classify_sound ties the decision to 15 facts (incl. the gateway TTL floor AND upper clamp — ttlPositive is stated over the int64-wrapped time.Duration, refutes_ttlOverflow —, the id source: uuid vs per-queue counter; foreign_unlock_noop is proved over the multi-key map model for globally unique ids, refutes_ticketIds otherwise) extracted from lock.go and gateway.go; the "
              "model is run against the real lock under forced schedules (hooks lock.enq/rm/select/acq/cancel/ttl), including the "
              "cancel-vs-grant race of Lock's select and TTL expiry through a hook-stopped watchdog."),
     "note": ("Trusted: Lean kernel; extract/c14.go; harness/c14.go + app/verifhook; Go channel/select/sync.Mutex semantics (each q.mu "
@@ -25,6 +25,7 @@ FINDINGS = {
     "C14-no-wake": "remove does not wake the next waiter when the head leaves: waiters stay blocked with no holder",
     "C14-ready-closed-twice": "remove closes the head's ready channel again when a waiter leaves (panic: close of closed channel)",
     "C14-ttl-floor": "the gateway can hand the locker a TTL <= 0",
+    "C14-ttl-overflow": "gateway Lock: time.Duration(TTL)*time.Millisecond wraps negative for TTL > 9223372036854 ms (no upper clamp): a lock requested 'forever' is released by its watchdog at once",
     "C14-foreign-id-unlock": "lock ids are not globally unique: an Unlock with an id issued for another key releases / evicts a caller of this key",
 }
 
@@ -61,6 +62,15 @@ def spec_violated(rep):
             if bad in line:
                 return "`%s` → `%s`: the real lock %s" % (op, line, "panicked" if bad == "panic" else "left a caller blocked / did not react")
         w = line.split()
+        if op.startswith("gwttl ") and w and w[0] == "gwttl":
+            for item, asked in zip(w[1:], op.split()[1:]):
+                if item.endswith("lock-error-residual"):
+                    return "gateway Lock(TTL=%s) answered with an error but its caller is still queued on the key (the key can never be locked again)" % asked
+                if item.endswith(":eff=0") and int(asked) > 1000:
+                    return ("gateway Lock(TTL=%s ms) was released by its watchdog at once: time.Duration(TTL)*time.Millisecond "
+                            "overflowed int64 nanoseconds" % asked)
+                if item.endswith(":eff=0"):
+                    return "gateway Lock(TTL=%s ms) was released at once (TTL floor missing)" % asked
         if op.startswith("unlockx ") and len(w) > 3 and w[0] == "unlockx" and w[3].startswith("ok"):
             return ("unlock with a foreign ID released another caller's lock: `%s` (an id issued on another key) was accepted on key %s (%s)"
                     % (op, w[2], line))
@@ -70,6 +80,9 @@ def spec_violated(rep):
         if "q" not in L:
             continue
         q, g, h = L["q"], L.get("g", []), L.get("h", [])
+        if L.get("e"):
+            return ("after `%s` caller(s) %s are still in the queue %s although their Lock call returned an error: "
+                    "nobody will ever unlock them (no watchdog, no id handed out) — the key stays locked" % (op, L["e"], q))
         if g != q[:1]:
             return "after `%s` the granted callers are %s but the queue is %s (granted must be exactly the head)" % (op, g, q)
         if len(h) > 1 or (h and h != q[:1]):
@@ -87,7 +100,7 @@ def run(ctx):
     K.lean_verdict(ctx)
     corrs = []
     if K.build_hx(ctx) and K.build_drv(ctx):
-        args = ["%s=%s" % (k, facts.get(k, "unknown")) for k in ("wake", "wakeOnlyIfHead", "ttlThresh", "ttlFloor", "gwWithoutCancel", "idSource")]
+        args = ["%s=%s" % (k, facts.get(k, "unknown")) for k in ("wake", "wakeOnlyIfHead", "ttlThresh", "ttlFloor", "ttlCap", "gwWithoutCancel", "idSource")]
         c = P.correspondence_observed(ctx, "C14", args, annotate)
         corrs.append(("C14", args, c))
         # genuinely concurrent run of the real lock; its hook log (written under each queue's own mutex)
@@ -104,11 +117,12 @@ def run(ctx):
     K.report_mismatch(ctx, spec_violated)
     # Spec oracle over the whole run, on the implementation's replies only
     if not getattr(ctx, "pending_mismatch", None):
-        for _, _, c in corrs:
+        for name, dargs, c in corrs:
             if c.err:
                 continue
             for cs in c.cases:
                 rep = K.case_replay(c, cs)
+                rep["correspondence"], rep["drv_args"] = name, dargs
                 why = spec_violated(rep)
                 if why:
                     ctx.violation("implementation violates the property: " + why, rep, tag="impl")
